@@ -118,3 +118,39 @@ SITE_CONFIG = {
     "protocols.gemini.SpartanProtocol": {"footer": None},
     "protocols.http.HTTPProtocol": {"pagetopper": None},
 }
+
+
+# selectors of entries that live on ANOTHER server: nothing obliges them to look like paths
+REMOTE_SELECTORS = ["users/bob", "0/users/alice/.plan", "", "?query", "a b", "caf\xc3\xa9/x", "\xae raw", "/abs/path", "~user",
+                    "a?b=c&d", "%41pct", "x#frag", "1/dir", "waisdocid:12:/x y", "//double", "dot./x", "sel;v=1", "back\\slash",
+                    "plus+sign", "q\"uote<>", "/trailing/", "GEMINI-QUERY/x", "wap/x"]
+REMOTE_HOSTS = [("gopher.example.org", "70"), ("gopher.example.org", "7070"), ("+", "7071"), ("other.example", "+"),
+                ("gopher.example", "7072"), ("10.1.2.3", "70"), ("[2001:db8::1]", "70")]
+
+
+def remote_links(rng, n=None, mtime=1_700_000_000):
+    """A directory `far` (UMN link file) and a directory `farmap` (gophermap) whose entries all point at
+    other servers (other host and/or other port), with selectors of every shape.  latin-1 strings = raw bytes."""
+    sels = list(REMOTE_SELECTORS)
+    if n is not None:
+        rng.shuffle(sels)
+        sels = sels[:n] + [s for s in ("users/bob", "") if s not in sels[:n]]
+    links, gmap = [], ["ientries on other servers"]
+    for i, sel in enumerate(sels):
+        host, port = REMOTE_HOSTS[i % len(REMOTE_HOSTS)]
+        typ = "0179h"[i % 5]
+        links.append("Name=far %d\nType=%s\nPath=%s\nHost=%s\nPort=%s\nNumb=%d\n" % (i, typ, sel, host, port, i + 1))
+        ghost = "gopher.example" if host == "+" else host
+        gport = "70" if port == "+" else port
+        gmap.append("%sfarmap %d\t%s\t%s\t%s" % (typ, i, sel, ghost, gport))
+    return [dict(e, mtime=mtime) for e in _remote_links_entries(links, gmap)]
+
+
+def _remote_links_entries(links, gmap):
+    return [
+        {"path": "far", "kind": "dir"},
+        {"path": "far/near.txt", "data": "a local file next to the far links\n"},
+        {"path": "far/.Links", "data": "\n".join(links)},
+        {"path": "farmap", "kind": "dir"},
+        {"path": "farmap/gophermap", "data": "\n".join(gmap) + "\n"},
+    ]
